@@ -81,7 +81,7 @@ def run(db, cx):
     # callers of the ledger methods (W2)
     def owners(rule_what, found, allowed, why, minimum):
         cx.floor("callers of " + rule_what, len(found), minimum)
-        check_owners(cx, "C01.1-callers", rule_what, found, allowed, why)
+        check_owners(cx, "C01.1-callers", rule_what, found, allowed, why, db=db)
 
     owners("subtract_energy", setter_calls(db, PTV + "::subtract_energy", 1),
            {ELOSS, TCUT},
@@ -133,11 +133,19 @@ def run(db, cx):
 
     # ------------------------------------------- rule 2: deposit<->subtract pair
     n_inst = 0
-    for f in db.get(ELOSS):
-        subs = list(f.calls(PTV + "::subtract_energy"))
+
+    def drains(es):       # subtract_energy(<this particle>.energy())
+        return PTV + "::energy" in es["args"][0].get("calls", [])
+    sub_funcs = []
+    for f in db.all_funcs():
+        ss = [x for x in f.calls(PTV + "::subtract_energy")]
+        if ss:
+            sub_funcs.append(f)
+    eloss_like = [f for f in sub_funcs if any(not drains(e) for (_b, _i, e) in f.calls(PTV + "::subtract_energy"))]
+    cut_like = [f for f in sub_funcs if any(drains(e) for (_b, _i, e) in f.calls(PTV + "::subtract_energy"))]
+    for f in eloss_like:
+        subs = [x for x in f.calls(PTV + "::subtract_energy") if not drains(x[2])]
         deps = list(f.calls(PSV + "::deposit_energy"))
-        if not subs and not deps:
-            continue    # e.g. NoELoss: the loss is a constant zero and the arm is dead code
         n_inst += 1
         for (bs, i_s, es) in subs:
             svars = local_refs(es["args"][0].get("refs", []))
@@ -154,26 +162,30 @@ def run(db, cx):
                     if not redefined:
                         ok = True
                         detail = "both take `%s`" % var
-            cx.ob("C01.2-pairing", "ElossApplier subtract@%s [%s]" % (short(es["loc"]),
-                                                                      f.inst.split("<")[-1][:60]),
+            cx.ob("C01.2-pairing", "%s subtract@%s [%s]" % (f.name.split("::")[-2], short(es["loc"]),
+                                                           f.inst.split("<")[-1][:60]),
                   ok, detail, short(es["loc"]),
                   why="continuous loss removed from the particle but not deposited (or a "
                       "different amount) is an energy leak on every charged step")
         # and conversely every deposit is paired
         for (bd, i_d, ed) in deps:
             ok = any(bs == bd for (bs, _i, _e) in subs)
-            cx.ob("C01.2-pairing", "ElossApplier deposit@%s [%s]" % (short(ed["loc"]),
-                                                                     f.inst.split("<")[-1][:60]),
+            cx.ob("C01.2-pairing", "%s deposit@%s [%s]" % (f.name.split("::")[-2], short(ed["loc"]),
+                                                          f.inst.split("<")[-1][:60]),
                   ok, "deposit paired with subtract in the same block" if ok else
                   "deposit without subtraction", short(ed["loc"]),
                   why="energy deposited but kept by the particle is counted twice")
-    cx.floor("ElossApplier instantiations", n_inst, 2)
+    cx.floor("functions subtracting a computed loss (instantiations)", n_inst, 2)
+    cx.floor("functions draining the particle", len(cut_like), 1)
 
-    for f in db.get(TCUT):
-        subs = list(f.calls(PTV + "::subtract_energy"))
+    for f in cut_like:
+        subs = [x for x in f.calls(PTV + "::subtract_energy") if drains(x[2])]
         deps = list(f.calls(PSV + "::deposit_energy"))
-        cx.require(len(subs) >= 1 and len(deps) >= 1,
-                   "TrackingCutExecutor lost its deposit/subtract calls")
+        if not deps:
+            cx.ob("C01.2-trackingcut", "%s drains the particle and deposits" % f.name, False,
+                  "subtract_energy(particle.energy()) without a deposit_energy in the same function",
+                  short(f.loc), why="a drained particle's energy must be deposited")
+            continue
         for (bs, i_s, es) in subs:
             a = es["args"][0]
             ok = PTV + "::energy" in a.get("calls", []) and local_refs(a.get("refs", [])) == \
